@@ -261,3 +261,35 @@ Theorem C08_mapor_km_parked_key_remove_example :
     mdeferred sC = ∅.
 Proof. exact mapor_km_example_closed. Qed.
 Print Assumptions C08_mapor_km_parked_key_remove_example.
+
+(** Map<K, Orswot>, EVERY history outside the classes of the known findings T2 and T3 (all commands; a key that some key remove names receives only nested adds [kmn_addonly] and at most one update per actor [km_once]; any other key receives anything): per-actor delivery suffices for the complete state, also across merges; closed example with a parked KEY remove (key 7) and a
+    parked NESTED remove (key 8) both travelling inside a merged state (proofs/MapOrswotKMN.v, MapOrswotKMNCor.v) *)
+From Crdt Require Import model.Orswot model.Map spec.System spec.OrswotSpec spec.OrswotSystem spec.MapSpec spec.MapSystem spec.MapOrswotSpec spec.MapOrswotKM spec.MapOrswotKMN proofs.MapOrswotKMN proofs.MapOrswotKMNCor.
+Theorem C08_mapor_kmn_any_discipline (adm : adm_t (mop oop)) (mg : Prop) (H : list (oprec (mop oop))) (s : cmap orswot) (K : gset nat) :
+  mohist_ok_kmn H -> km_once H -> kmn_addonly H -> (forall K i, adm H K i -> adm_per_actor H K i) ->
+  reach mnew (mapply orswot_valops) (mmerge orswot_valops) adm mg H s K -> s = mapor_spec_kmn H K.
+Proof. exact (mapor_refine_kmn_any adm mg H s K). Qed.
+Print Assumptions C08_mapor_kmn_any_discipline.
+
+Theorem C08_mapor_kmn_parked_removes_example :
+  exists (H : list (oprec (mop oop))) (sP sQ sM sR sC : cmap orswot) (KP KQ KM KR KC : gset nat),
+    mohist_ok_kmn H /\ km_once H /\ kmn_addonly H /\ length H = 5%nat /\
+    kmn_named (op_val <$> H) 7 = true /\ kmn_named (op_val <$> H) 8 = false /\
+    moreach_kmn H sP KP /\ mdeferred sP = {[ ({[1 := 1]} : gmap N N) := ({[7]} : gset N) ]} /\
+    moreach_kmn H sQ KQ /\
+    odeferred <$> (eval <$> mentries sQ !! 8) = Some {[ ({[1 := 2]} : gmap N N) := ({[30]} : gset N) ]} /\
+    moreach_kmn H sM KM /\ mdeferred sM = {[ ({[1 := 1]} : gmap N N) := ({[7]} : gset N) ]} /\
+    odeferred <$> (eval <$> mentries sM !! 8) = Some {[ ({[1 := 2]} : gmap N N) := ({[30]} : gset N) ]} /\
+    mo_state_entries sM 7 = {[20 := {[2 := 1]}]} /\
+    moreach_kmn H sR KR /\ mo_state_entries sR 7 = {[10 := {[1 := 1]}; 20 := {[2 := 1]}]} /\
+    mo_state_entries sR 8 = {[30 := {[1 := 2]}]} /\
+    moreach_kmn H sC KC /\ KC = KR ∪ KM /\
+    mmerge orswot_valops sR sM = sC /\ mmerge orswot_valops sM sR = sC /\
+    mmerge orswot_valops sR sM = mapor_spec_kmn H KC /\
+    mapor_kmn_ok H KC (mmerge orswot_valops sM sR) = true /\ mapor_kmn_ok H KM sM = true /\
+    mapor_kmn_ok H KQ sQ = true /\
+    mo_state_entries sC 7 = {[20 := {[2 := 1]}]} /\
+    mo_state_entries sC 8 = ∅ /\
+    mdeferred sC = ∅.
+Proof. exact mapor_kmn_example_closed. Qed.
+Print Assumptions C08_mapor_kmn_parked_removes_example.
